@@ -649,10 +649,140 @@ fn labels_wire(labels: &[Vec<u8>], root: bool) -> Vec<u8> {
     v
 }
 
+/// The zone-file reader's own name scanner (zonefile::inplace: convert_label
+/// etc. - an implementation separate from FromStr) and the token scanner of
+/// base::scan (`IterScanner`), with the text in owner position and inside
+/// RDATA (NS target). Relative names are completed with the origin `o.`.
+fn check_scanners(ctx: &Ctx, stats: &Stats, chars: &[char], spec: &Option<Result<(Vec<Vec<u8>>, bool), &'static str>>) {
+    use domain::base::scan::{IterScanner, Scanner};
+    use domain::base::ToName;
+    use domain::rdata::ZoneRecordData;
+    use domain::zonefile::inplace::{Entry, Zonefile};
+    let Some(spec) = spec else { return };
+    if chars.is_empty() {
+        return; // no token at all: not a name position
+    }
+    let text: String = chars.iter().collect();
+    let case = || json!({"text": text, "entry": "scanner"});
+    // In a zone file a backslash at the end of the text escapes the white space that
+    // delimits the token: the token is then a different one (not a defect; an earlier
+    // version of this check flagged it).
+    let zone_routes = !matches!(spec, Err("dangling backslash"));
+    // expected octets per route
+    let want_zone: Result<Vec<u8>, &str> = match spec {
+        Ok((labels, absolute)) => {
+            let mut w = labels_wire(labels, false);
+            if !absolute {
+                w.extend_from_slice(&[1, b'o']);
+            }
+            w.push(0);
+            if w.len() > 255 {
+                Err("long name")
+            } else {
+                Ok(w)
+            }
+        }
+        Err(e) => Err(e),
+    };
+    for position in ["owner", "rdata"] {
+        if !zone_routes {
+            break;
+        }
+        let zone = match position {
+            "owner" => format!("{text} 3600 IN A 192.0.2.1\n"),
+            _ => format!("x. 3600 IN NS {text}\n"),
+        };
+        let r = guard(|| -> Result<Vec<u8>, String> {
+            let mut z = Zonefile::from(zone.as_bytes());
+            z.set_origin(Name::from_str("o.").unwrap());
+            match z.next_entry() {
+                Ok(Some(Entry::Record(r))) => {
+                    let mut o = Vec::new();
+                    if position == "owner" {
+                        r.owner().compose(&mut o).unwrap();
+                    } else {
+                        match r.data() {
+                            ZoneRecordData::Ns(ns) => ns.nsdname().compose(&mut o).unwrap(),
+                            _ => return Err("not an NS record".into()),
+                        }
+                    }
+                    Ok(o)
+                }
+                Ok(Some(_)) => Err("other entry".into()),
+                Ok(None) => Err("no entry".into()),
+                Err(e) => Err(e.to_string()),
+            }
+        });
+        stats.eval();
+        match r {
+            Err(p) => {
+                ctx.violation(&format!("C03|zonefile-scanner|{position}|panic|{}", panic_class(&p)), &p, case());
+            }
+            Ok(Ok(o)) => {
+                if let Err(why) = validate_name(&o, true) {
+                    ctx.violation(&format!("C03|zonefile-scanner|{position}|invalid-output|{}", why_class(&why)), &format!("zone-file reader returned invalid name {} for {text:?}: {why}", hex(&o)), case());
+                } else {
+                    match &want_zone {
+                        Ok(w) if *w == o => {
+                            stats.distinct(fnv(&o));
+                        }
+                        Ok(w) => {
+                            ctx.violation(&format!("C03|zonefile-scanner|{position}|wrong-octets"), &format!("zone-file reader read {text:?} as {}, expected {}", hex(&o), hex(w)), case());
+                        }
+                        Err(why) => {
+                            ctx.violation(&format!("C03|zonefile-scanner|{position}|accepted-should-reject|{why}"), &format!("zone-file reader accepted {text:?} as {}", hex(&o)), case());
+                        }
+                    }
+                }
+            }
+            Ok(Err(e)) => {
+                if want_zone.is_ok() {
+                    let class: String = e.chars().filter(|c| !c.is_ascii_digit()).take(40).collect();
+                    ctx.violation(&format!("C03|zonefile-scanner|{position}|rejected-should-accept|{class}"), &format!("zone-file reader rejected {text:?}: {e}"), case());
+                }
+            }
+        }
+    }
+    // base::scan::IterScanner::scan_name (Name::from_symbols): always absolute
+    let r = guard(|| {
+        let mut sc = IterScanner::<_, Vec<u8>>::new([text.as_str()].into_iter());
+        sc.scan_name().map(|n| n.as_slice().to_vec()).map_err(|e| e.to_string())
+    });
+    stats.eval();
+    match r {
+        Err(p) => {
+            ctx.violation(&format!("C03|iter-scanner|panic|{}", panic_class(&p)), &p, case());
+        }
+        Ok(Ok(o)) => {
+            if let Err(why) = validate_name(&o, true) {
+                ctx.violation(&format!("C03|iter-scanner|invalid-output|{}", why_class(&why)), &format!("IterScanner::scan_name returned invalid name {} for {text:?}: {why}", hex(&o)), case());
+            } else {
+                match spec {
+                    Ok((labels, _)) => {
+                        if o != labels_wire(labels, true) {
+                            ctx.violation("C03|iter-scanner|wrong-octets", &format!("IterScanner::scan_name read {text:?} as {}", hex(&o)), case());
+                        }
+                    }
+                    Err(why) => {
+                        ctx.violation(&format!("C03|iter-scanner|accepted-should-reject|{why}"), &format!("IterScanner::scan_name accepted {text:?} as {}", hex(&o)), case());
+                    }
+                }
+            }
+        }
+        Ok(Ok_err) => {
+            let Err(e) = Ok_err else { unreachable!() };
+            if spec.is_ok() {
+                ctx.violation("C03|iter-scanner|rejected-should-accept", &format!("IterScanner::scan_name rejected {text:?}: {e}"), case());
+            }
+        }
+    }
+}
+
 fn check_text(ctx: &Ctx, stats: &Stats, chars: &[char]) {
     let s: String = chars.iter().collect();
     stats.eval();
     let spec = spec_parse(chars);
+    check_scanners(ctx, stats, chars, &spec);
     // Name::from_str — always absolute
     let r = guard(|| Name::<Vec<u8>>::from_str(&s).map(|n| n.as_slice().to_vec()).map_err(|e| e.to_string()));
     let r2 = guard(|| Name::<Vec<u8>>::from_chars(s.chars()).map(|n| n.as_slice().to_vec()).map_err(|e| e.to_string()));
@@ -907,7 +1037,36 @@ fn check_slicing(ctx: &Ctx, stats: &Stats, lens: &[usize], fill: u8) {
             judge("Name::range", i, j, legal, guard(|| name.range(i..j).as_slice().to_vec()), want.clone(), false);
             let wantr = if i <= j { rel.get(i..j).map(|s| s.to_vec()) } else { None };
             judge("RelativeName::slice", i, j, legal, guard(|| rname.slice(i..j).as_slice().to_vec()), wantr.clone(), false);
-            judge("RelativeName::range", i, j, legal, guard(|| rname.range(i..j).as_slice().to_vec()), wantr, false);
+            judge("RelativeName::range", i, j, legal, guard(|| rname.range(i..j).as_slice().to_vec()), wantr.clone(), false);
+            // the same octet range [i, j) written with every other supported form of RangeBounds
+            if j >= 1 {
+                judge("Name::slice(i..=j-1)", i, j, legal, guard(|| name.slice(i..=j - 1).as_slice().to_vec()), want.clone(), false);
+                judge("Name::range(i..=j-1)", i, j, legal, guard(|| name.range(i..=j - 1).as_slice().to_vec()), want.clone(), false);
+                judge("RelativeName::slice(i..=j-1)", i, j, legal, guard(|| rname.slice(i..=j - 1).as_slice().to_vec()), wantr.clone(), false);
+                judge("RelativeName::range(i..=j-1)", i, j, legal, guard(|| rname.range(i..=j - 1).as_slice().to_vec()), wantr.clone(), false);
+                judge("Name::slice((Included,Included))", i, j, legal, guard(|| name.slice((std::ops::Bound::Included(i), std::ops::Bound::Included(j - 1))).as_slice().to_vec()), want.clone(), false);
+                judge("RelativeName::range((Included,Excluded))", i, j, legal, guard(|| rname.range((std::ops::Bound::Included(i), std::ops::Bound::Excluded(j))).as_slice().to_vec()), wantr.clone(), false);
+            }
+            if i == 0 {
+                judge("Name::slice(..j)", i, j, legal, guard(|| name.slice(..j).as_slice().to_vec()), want.clone(), false);
+                judge("Name::range(..j)", i, j, legal, guard(|| name.range(..j).as_slice().to_vec()), want.clone(), false);
+                judge("RelativeName::slice(..j)", i, j, legal, guard(|| rname.slice(..j).as_slice().to_vec()), wantr.clone(), false);
+                judge("RelativeName::range(..j)", i, j, legal, guard(|| rname.range(..j).as_slice().to_vec()), wantr.clone(), false);
+                if j >= 1 {
+                    judge("Name::slice(..=j-1)", i, j, legal, guard(|| name.slice(..=j - 1).as_slice().to_vec()), want.clone(), false);
+                    judge("Name::range(..=j-1)", i, j, legal, guard(|| name.range(..=j - 1).as_slice().to_vec()), want.clone(), false);
+                    judge("RelativeName::slice(..=j-1)", i, j, legal, guard(|| rname.slice(..=j - 1).as_slice().to_vec()), wantr.clone(), false);
+                    judge("RelativeName::range(..=j-1)", i, j, legal, guard(|| rname.range(..=j - 1).as_slice().to_vec()), wantr.clone(), false);
+                }
+            }
+            if j == rel.len() {
+                // unbounded end: supported by the relative name only (the absolute name documents a panic)
+                judge("RelativeName::slice(i..)", i, j, li && i <= j, guard(|| rname.slice(i..).as_slice().to_vec()), wantr.clone(), false);
+                judge("RelativeName::range(i..)", i, j, li && i <= j, guard(|| rname.range(i..).as_slice().to_vec()), wantr.clone(), false);
+                if i == 0 {
+                    judge("RelativeName::slice(..)", i, j, true, guard(|| rname.slice(..).as_slice().to_vec()), wantr.clone(), false);
+                }
+            }
         }
     }
     // structural operations (no index)
@@ -1295,6 +1454,35 @@ fn main() {
             }
             check_text(&ctx, &stats, &s.chars().collect::<Vec<_>>());
         }
+        // the same family with one label spelled through an escape: at its first or last
+        // octet a decimal escape or a simple escape (the escape-aware paths of the scanners)
+        for which in 0..lens.len() {
+            for (at_end, esc) in [(false, "\\097"), (true, "\\097"), (false, "\\a"), (true, "\\a")] {
+                for dot in [false, true] {
+                    let mut s = String::new();
+                    for (i, l) in lens.iter().enumerate() {
+                        if i > 0 {
+                            s.push('.');
+                        }
+                        if i == which {
+                            if !at_end {
+                                s.push_str(esc);
+                            }
+                            s.extend(std::iter::repeat('a').take(*l - 1));
+                            if at_end {
+                                s.push_str(esc);
+                            }
+                        } else {
+                            s.extend(std::iter::repeat('a').take(*l));
+                        }
+                    }
+                    if dot {
+                        s.push('.');
+                    }
+                    check_text(&ctx, &stats, &s.chars().collect::<Vec<_>>());
+                }
+            }
+        }
         // wire form of the same family, absolute and relative
         let rel = rel_wire(lens, b'a');
         let mut abs = rel.clone();
@@ -1302,7 +1490,7 @@ fn main() {
         check_wire(&ctx, &stats, &rel, "boundary-family");
         check_wire(&ctx, &stats, &abs, "boundary-family");
     });
-    samples.push(json!({"boundary_family": "L1.L2.L3.L4[.] with each Li in menu", "menu": lm, "members": combos.len() * 2}));
+    samples.push(json!({"boundary_family": "L1.L2.L3.L4[.] with each Li in menu, spelled plain and with one label carrying a decimal or simple escape at its first or last octet", "text_entry_points": "Name/RelativeName/UncertainName::from_str, Name::from_chars, the zone-file reader (owner and NS RDATA position, origin o.), IterScanner::scan_name", "menu": lm, "members": combos.len() * 2}));
 
     // Part 2b: wire strings from a label-length-octet menu
     let len_menu: Vec<u8> = vec![0, 1, 2, 62, 63, 64, 0x80, 0xC0, 0xFF];
